@@ -998,6 +998,24 @@ pub fn gen_macros(_asm: &Asm, sh: &mut Shards, path: &str, workdir: &str) {
             cases.push(json!({"lib":[{"name":"many","params":params,"body":body}],"use":{"name":"many","args":args},"err":"","code":code}).to_string());
         }
     }
+    // parameter names of every shape the grammar allows for an identifier (a lone underscore, leading / trailing
+    // underscores, digits, upper case, long), in every position of a three-parameter macro, each parameter used
+    for special in ["_", "__", "_1", "x_", "Q", "lOnG_name_9_", "a"] {
+        for pos in 0..3usize {
+            for rev in [false, true] {
+                let mut params: Vec<String> = vec!["first".into(), "snd".into(), "third".into()];
+                params[pos] = special.to_string();
+                let order: Vec<usize> = if rev { vec![2, 1, 0] } else { vec![0, 1, 2] };
+                let regs = ["ax", "cx", "dx"];
+                let body: Vec<Value> = order.iter().map(|i| json!({"k":"ins","toks":["mov", regs[*i], ",", params[*i]]})).collect();
+                let args: Vec<Value> = (0..3).map(|i| json!([format!("{}", 300 + i * 11)])).collect();
+                let code: Vec<Value> = order.iter().map(|i| json!(["mov", regs[*i], ",", format!("{}", 300 + i * 11)])).collect();
+                cases.push(json!({"lib":[{"name":"named","params":params,"body":body}],"use":{"name":"named","args":args},"err":"","code":code}).to_string());
+            }
+        }
+        // the parameter as a jump target and as a register
+        cases.push(json!({"lib":[{"name":"go","params":[special],"body":[{"k":"ins","toks":["inc", special]}]}],"use":{"name":"go","args":[["bx"]]},"err":"","code":[["inc","bx"]]}).to_string());
+    }
     let path_all = format!("{}/macro_cases_all.ndjson", workdir);
     std::fs::write(&path_all, cases.join("\n") + "\n").unwrap();
     let path: &str = &path_all;
@@ -1287,6 +1305,31 @@ pub fn gen_c19(asm: &Asm, rng: &mut Rng, sh: &mut Shards, path: &str, thorough: 
                 let fp_fresh = fingerprint(fresh, &c2, &o2);
                 sh.count("preprocessor-reuse", 1);
                 sh.unit(&[json!({"ev":"repeat","runs":2,"identical":fp_reused == fp_fresh,"what":format!("reused preprocessor/context after clear() vs fresh on source #{}: {} vs {}", (k + round) % sources.len(), fp_reused.chars().take(150).collect::<String>(), fp_fresh.chars().take(150).collect::<String>())})]);
+            }
+        }
+        // the source map (instruction -> source position) of a cleared context: the map can only be taken out of the
+        // context by consuming it, so every ordered pair (A, B) gets a context of its own: A, clear(), B, take the map
+        let srcmap = |c: PreprocessorContext| -> String {
+            let mut v: Vec<(usize, usize)> = c.mapper.get_source_map().into_iter().collect();
+            v.sort();
+            format!("{:?}", v)
+        };
+        for (ia, a) in sources.iter().enumerate() {
+            for (ib, b) in sources.iter().enumerate() {
+                if !thorough && (ia * 7 + ib) % 3 != 0 { continue; }
+                let pre2 = Preprocessor::new();
+                let mut c1 = PreprocessorContext::default();
+                let mut o1 = PreprocessorOutput::default();
+                let _ = std::panic::catch_unwind(std::panic::AssertUnwindSafe(|| pre2.parse(&mut c1, &mut o1, a).is_ok()));
+                c1.clear();
+                o1.clear();
+                let r1 = std::panic::catch_unwind(std::panic::AssertUnwindSafe(|| pre2.parse(&mut c1, &mut o1, b).is_ok())).unwrap_or(false);
+                let mut c2 = PreprocessorContext::default();
+                let mut o2 = PreprocessorOutput::default();
+                let r2 = std::panic::catch_unwind(std::panic::AssertUnwindSafe(|| Preprocessor::new().parse(&mut c2, &mut o2, b).is_ok())).unwrap_or(false);
+                let (m1, m2) = (srcmap(c1), srcmap(c2));
+                sh.count("context-reuse-source-map", 1);
+                sh.unit(&[json!({"ev":"repeat","runs":2,"identical": r1 == r2 && m1 == m2,"what":format!("source map of a cleared context (after source #{}) vs a fresh one on source #{}: {} vs {}", ia, ib, m1.chars().take(150).collect::<String>(), m2.chars().take(150).collect::<String>())})]);
             }
         }
     }
